@@ -120,4 +120,18 @@ Definition wf_lpktb (l : lpkt) : bool :=
   | NoAF => afc (lh l) =? 1
   | _ => ((afc (lh l) =? 2) && negb (nonempty (lpayload l))) || ((afc (lh l) =? 3) && nonempty (lpayload l))
   end.
+
+(* what SetPayload has to do, on logical packets: store the first min(n, capacity) bytes; when the
+   data is shorter than the capacity the gap becomes adaptation-field stuffing (0xFF), creating the
+   field (control 01 -> 11) when there was none; optional fields and flags are kept *)
+Definition laf0 : laf := mkLaf 0 None None None None None.
+Definition set_payload (l : lpkt) (d : bytes) : lpkt :=
+  let cap := capacity l in
+  if len d <? cap then
+    mkLpkt (with_afc (lh l) 3)
+      (match lf l with
+       | AF a _ => AF a (repeatN 255 (cap - len d))
+       | _ => if len d =? 183 then EmptyAF else AF laf0 (repeatN 255 (182 - len d))
+       end) d
+  else mkLpkt (lh l) (match lf l with AF a _ => AF a [] | f => f end) (takeN cap d).
 End Iso.
